@@ -613,3 +613,131 @@ pub fn listener_order_case(rt: RtKind, mode: usize, clients: usize, mask: u32) -
     let _ = std::fs::remove_dir_all(&dir);
     res
 }
+
+// ------------------------------------------------------------------------------------------------
+// C03 over the shipped transports: what a raw reader at the other end of a real socket pair sees
+// must be, byte for byte, serde_json's compact encoding of every message followed by one NUL -
+// whatever the message sizes are relative to the kernel's socket buffers and however slowly the
+// peer takes the bytes off.
+
+/// A payload with characters the serializer has to escape or encode in several bytes, `size` bytes
+/// of text before escaping.
+pub fn odd_message(id: usize, size: usize) -> Call<Pay> {
+    const PIECES: [&str; 8] = ["abc", "\u{e9}", "\"", "\\", "\n", "\u{20ac}", "xyz12", "\u{1}"];
+    let mut x = format!("m{id}:");
+    let mut i = id;
+    while x.len() < size {
+        x.push_str(PIECES[i % PIECES.len()]);
+        i += 1;
+    }
+    Call::new(Pay { x })
+}
+
+pub const RAW_SIZES: [usize; 4] = [300, 9_000, 70_000, 150_000];
+/// bytes the peer takes off after every sender poll that came back pending (0: nothing until the
+/// sender has been pending three times in a row, then everything)
+pub const RAW_DRAINS: [usize; 4] = [0, 4096, 65_536, usize::MAX];
+
+fn raw_wire_with<R: Rt>(sizes: &[usize], drain: usize, small: bool) -> Result<u64, (String, String)> {
+    use std::io::Read;
+    let rt = R::new();
+    let (sa, mut peer) = small_pair(small);
+    let conn: Connection<R::Sock> = Connection::new(rt.wrap(sa));
+    let (_r, mut w) = conn.split();
+    let msgs: Vec<Call<Pay>> = sizes.iter().enumerate().map(|(i, s)| odd_message(i, *s)).collect();
+    let mut expect = Vec::new();
+    for m in &msgs {
+        expect.extend_from_slice(&serde_json::to_vec(m).unwrap());
+        expect.push(0);
+    }
+    let mut got: Vec<u8> = Vec::new();
+    let mut take = |peer: &mut StdUnixStream, got: &mut Vec<u8>, max: usize| {
+        let mut buf = vec![0u8; 65536];
+        let mut left = max;
+        while left > 0 {
+            let want = left.min(buf.len());
+            match peer.read(&mut buf[..want]) {
+                Ok(0) => break,
+                Ok(n) => {
+                    got.extend_from_slice(&buf[..n]);
+                    left -= n;
+                }
+                Err(_) => break,
+            }
+        }
+    };
+    let describe = |got: &Vec<u8>| {
+        let at = got.iter().zip(expect.iter()).position(|(a, b)| a != b).unwrap_or(got.len().min(expect.len()));
+        format!("message sizes {sizes:?}, peer takes {} bytes per pending poll, {} socket buffers: the peer read {} bytes, serde_json's encodings + NULs are {} bytes, first difference at offset {at}", if drain == usize::MAX { "all".to_string() } else { drain.to_string() }, if small { "smallest" } else { "default" }, got.len(), expect.len())
+    };
+    for (k, m) in msgs.iter().enumerate() {
+        let mut fut: SendFut = Box::pin(unsafe { (*(&mut w as *mut WriteConnection<<R::Sock as Socket>::WriteHalf>)).send_call(&*(m as *const Call<Pay>)) });
+        let mut pendings = 0usize;
+        let mut guard = 0usize;
+        loop {
+            guard += 1;
+            if guard > 1_000_000 {
+                return Err(("sockets:no-progress".into(), format!("send #{k}: {}", describe(&got))));
+            }
+            rt.turn();
+            match poll_once(fut.as_mut()) {
+                Poll::Ready(Ok(())) => break,
+                Poll::Ready(Err(e)) => return Err(("sockets:send-failed".into(), format!("send #{k}: {e:?}; {}", describe(&got)))),
+                Poll::Pending => {
+                    pendings += 1;
+                    if drain == 0 {
+                        if pendings >= 3 {
+                            take(&mut peer, &mut got, usize::MAX);
+                        }
+                    } else {
+                        take(&mut peer, &mut got, drain);
+                    }
+                }
+            }
+        }
+        drop(fut);
+    }
+    rt.turn();
+    take(&mut peer, &mut got, usize::MAX);
+    if got != expect {
+        let class = if got.len() > expect.len() { "jsoneq:wire-has-extra-bytes" } else if got.len() < expect.len() { "jsoneq:wire-misses-bytes" } else { "jsoneq:wire-bytes-differ" };
+        return Err((class.into(), describe(&got)));
+    }
+    Ok(got.len() as u64)
+}
+
+pub fn raw_wire_case(rt: RtKind, sizes: &[usize], drain: usize, small: bool) -> Result<u64, (String, String)> {
+    match rt {
+        RtKind::Tokio => raw_wire_with::<TokioRt>(sizes, drain, small),
+        RtKind::Smol => raw_wire_with::<SmolRt>(sizes, drain, small),
+    }
+}
+
+/// (runtime, sizes, drain, small buffers) for all size sequences of length 1..=max_msgs.
+pub fn raw_wire_cases(max_msgs: usize) -> Vec<(RtKind, Vec<usize>, usize, bool)> {
+    let mut seqs: Vec<Vec<usize>> = vec![vec![]];
+    let mut all: Vec<Vec<usize>> = vec![];
+    for _ in 0..max_msgs {
+        let mut next = vec![];
+        for s in &seqs {
+            for z in RAW_SIZES {
+                let mut t = s.clone();
+                t.push(z);
+                next.push(t);
+            }
+        }
+        all.extend(next.iter().cloned());
+        seqs = next;
+    }
+    let mut v = Vec::new();
+    for rt in [RtKind::Tokio, RtKind::Smol] {
+        for s in &all {
+            for d in RAW_DRAINS {
+                for small in [true, false] {
+                    v.push((rt, s.clone(), d, small));
+                }
+            }
+        }
+    }
+    v
+}
